@@ -452,7 +452,13 @@ func runTxFlow(c *Case) ([]Obs, any) {
 				if !ok {
 					panic(harnessErr("undeclared tx"))
 				}
-				paused, resume := f.store.ArmPause(tu.HashOf(t).String())
+				// optional 4th argument 1: hold the check right AFTER it read the state (instead of at its write)
+				var paused, resume chan struct{}
+				if len(op.Args) > 3 && op.Int(3) != 0 {
+					paused, resume = f.store.ArmPauseRead(tu.HashOf(t).String())
+				} else {
+					paused, resume = f.store.ArmPause(tu.HashOf(t).String())
+				}
 				done := make(chan struct{})
 				go func() { f.node.VerifDelayCheck(ctx2); close(done) }()
 				reached := false
